@@ -228,7 +228,13 @@ class Rig:
         i = 0
         while True:
             q = kernel_rx_queue(port)
-            if not q:            # empty, or nothing listens there any more (the closing barrier will tell)
+            if q is None:
+                # no such socket (the bridge went deaf) or /proc/net/udp cannot be read: fall back to a sentinel
+                dead = await self.barrier([port])
+                if dead:
+                    raise DeliveryStopped(dead)
+                return
+            if not q:
                 break
             i += 1
             if time.monotonic() > deadline and i > 3000:
